@@ -6,7 +6,10 @@
 package noise
 
 import (
+	"fmt"
+
 	"github.com/brocaar/lorawan"
+	"verifharness/internal/cases"
 	"verifharness/internal/cq"
 	"verifharness/internal/framefmt"
 )
@@ -63,7 +66,11 @@ func Step(r *cq.RNG) {
 
 func one(r *cq.RNG) {
 	defer func() { _ = recover() }()
-	switch r.Intn(14) {
+	k := r.Intn(14)
+	// under the harness watchdog: a library call that does not return is reported, not waited for
+	cases.Begin(fmt.Sprintf("unrelated-call-%d", k), map[string]interface{}{"where": "internal/noise action " + fmt.Sprint(k)})
+	defer cases.End()
+	switch k {
 	case 0: // data MIC, both directions, both versions, long and short frames
 		p := frame(r)
 		if up(p) {
